@@ -1,0 +1,185 @@
+//! Verification hooks, only compiled with the `verif` feature.
+use crate::{Cell, Property};
+use std::cell::UnsafeCell;
+use std::collections::HashMap;
+use std::ops::Deref;
+use std::sync::atomic::{AtomicU8, AtomicUsize, Ordering};
+use std::sync::Mutex;
+
+#[derive(Clone, Copy, Debug, PartialEq, Eq)]
+pub enum Event {
+    Point(&'static str),
+    LazyCheck(usize),
+    LazyPublish(usize),
+    /// the calling thread can not proceed until the table is published
+    LazyBlocked(usize),
+}
+
+static HOOK: AtomicUsize = AtomicUsize::new(0);
+static ORDER: AtomicUsize = AtomicUsize::new(0);
+
+pub fn set_hook(f: Option<fn(Event)>) {
+    HOOK.store(f.map(|f| f as usize).unwrap_or(0), Ordering::SeqCst);
+}
+pub fn set_order(f: Option<fn(usize) -> Vec<usize>>) {
+    ORDER.store(f.map(|f| f as usize).unwrap_or(0), Ordering::SeqCst);
+}
+fn emit(ev: Event) {
+    let h = HOOK.load(Ordering::SeqCst);
+    if h != 0 {
+        let f: fn(Event) = unsafe { std::mem::transmute(h) };
+        f(ev)
+    }
+}
+thread_local! {
+    /// how many table initialisers are running on this thread
+    static INIT_DEPTH: std::cell::Cell<usize> = std::cell::Cell::new(0);
+}
+pub fn point(name: &'static str) {
+    // the pipeline also runs while the tables are being built; those runs
+    // touch nothing but the table under construction
+    if INIT_DEPTH.with(|d| d.get()) == 0 {
+        emit(Event::Point(name))
+    }
+}
+
+const UNINIT: u8 = 0;
+const RUNNING: u8 = 1;
+const DONE: u8 = 2;
+
+trait Resettable {
+    unsafe fn reset(&self);
+    fn is_done(&self) -> bool;
+}
+struct Entry(*const (dyn Resettable + 'static));
+unsafe impl Send for Entry {}
+static REGISTRY: Mutex<Vec<Entry>> = Mutex::new(Vec::new());
+
+pub struct Lazy<T: 'static> {
+    state: AtomicU8,
+    cell: UnsafeCell<Option<T>>,
+    init: fn() -> T,
+}
+unsafe impl<T: Send + Sync> Sync for Lazy<T> {}
+
+impl<T: 'static> Resettable for Lazy<T> {
+    unsafe fn reset(&self) {
+        *self.cell.get() = None;
+        self.state.store(UNINIT, Ordering::SeqCst);
+    }
+    fn is_done(&self) -> bool {
+        self.state.load(Ordering::SeqCst) == DONE
+    }
+}
+
+impl<T: 'static> Lazy<T> {
+    pub const fn new(init: fn() -> T) -> Self {
+        Lazy {
+            state: AtomicU8::new(UNINIT),
+            cell: UnsafeCell::new(None),
+            init,
+        }
+    }
+    fn id(&self) -> usize {
+        self as *const Self as usize
+    }
+    #[cold]
+    fn slow(&self) {
+        loop {
+            emit(Event::LazyCheck(self.id()));
+            match self.state.compare_exchange(
+                UNINIT,
+                RUNNING,
+                Ordering::SeqCst,
+                Ordering::SeqCst,
+            ) {
+                Ok(_) => {
+                    let ptr: *const (dyn Resettable + 'static) = self as &dyn Resettable as *const _;
+                    REGISTRY.lock().unwrap().push(Entry(unsafe { std::mem::transmute(ptr) }));
+                    INIT_DEPTH.with(|d| d.set(d.get() + 1));
+                    let value = (self.init)();
+                    INIT_DEPTH.with(|d| d.set(d.get() - 1));
+                    emit(Event::LazyPublish(self.id()));
+                    unsafe { *self.cell.get() = Some(value) };
+                    self.state.store(DONE, Ordering::SeqCst);
+                    return;
+                }
+                Err(DONE) => return,
+                Err(_) => {
+                    if HOOK.load(Ordering::SeqCst) != 0 {
+                        emit(Event::LazyBlocked(self.id()));
+                    } else {
+                        std::thread::yield_now();
+                    }
+                }
+            }
+        }
+    }
+}
+
+impl<T: 'static> Deref for Lazy<T> {
+    type Target = T;
+    fn deref(&self) -> &T {
+        if self.state.load(Ordering::SeqCst) != DONE {
+            self.slow();
+        }
+        unsafe { (*self.cell.get()).as_ref().expect("published") }
+    }
+}
+
+/// is the table with this id published
+pub fn lazy_is_done(id: usize) -> bool {
+    REGISTRY.lock().unwrap().iter().any(|e| e.0 as *const () as usize == id && unsafe { (*e.0).is_done() })
+}
+
+/// number of tables which are initialised
+pub fn lazy_count() -> usize {
+    REGISTRY.lock().unwrap().iter().filter(|e| unsafe { (*e.0).is_done() }).count()
+}
+
+/// forget every lazily built table: the next use builds it again
+pub unsafe fn reset_all() {
+    let mut reg = REGISTRY.lock().unwrap();
+    for e in reg.iter() {
+        (*e.0).reset();
+    }
+    reg.clear();
+}
+
+/// a view of the property map whose iteration order is dictated by the harness
+pub struct OrderedView<'p> {
+    map: HashMap<Cell, &'p Property>,
+}
+pub struct OrderedRef<'a, 'p> {
+    map: &'a HashMap<Cell, &'p Property>,
+}
+impl<'p> OrderedView<'p> {
+    pub fn new(map: HashMap<Cell, &'p Property>) -> Self {
+        OrderedView { map }
+    }
+    pub fn as_ref(&self) -> OrderedRef<'_, 'p> {
+        OrderedRef { map: &self.map }
+    }
+}
+impl<'a, 'p> OrderedRef<'a, 'p> {
+    pub fn get(&self, cell: &Cell) -> Option<&'a &'p Property> {
+        self.map.get(cell)
+    }
+}
+impl<'a, 'p> IntoIterator for OrderedRef<'a, 'p> {
+    type Item = (&'a Cell, &'a &'p Property);
+    type IntoIter = std::vec::IntoIter<Self::Item>;
+    fn into_iter(self) -> Self::IntoIter {
+        let mut entries: Vec<Self::Item> = self.map.iter().collect();
+        // canonical order first, so that the dictated order is reproducible
+        entries.sort_by(|a, b| a.0.cmp(b.0));
+        let o = ORDER.load(Ordering::SeqCst);
+        if o != 0 {
+            let f: fn(usize) -> Vec<usize> = unsafe { std::mem::transmute(o) };
+            let perm = f(entries.len());
+            assert_eq!(perm.len(), entries.len());
+            entries = perm.into_iter().map(|i| entries[i]).collect();
+        }
+        entries.into_iter()
+    }
+}
